@@ -92,16 +92,74 @@ Definition boolean (p : f64) (st : state) : bool * state :=
   let '(u, st') := canonical st in
   (F64.ltb (F64.sub u F64.zero) (F64.mul p (F64.sub (F64.of_Z 1) F64.zero)), st').
 
+(* ------------------------------------------------------------ std::discrete_distribution<unsigned>
+   as population.tcc:pickup uses it (weights = the sizes of the layers).
+   param_type::_M_initialize (random.tcc):  fewer than two weights -> no table (always 0, nothing drawn);
+     sum = std::accumulate(prob, 0.0);  prob[i] /= sum;  cp = std::partial_sum(prob);  cp.back() = 1.0
+   operator(): p = generate_canonical;  return std::lower_bound(cp.begin(), cp.end(), p) - cp.begin() *)
+Fixpoint partial_sums (acc : f64) (l : list f64) : list f64 :=
+  match l with
+  | [] => []
+  | x :: r => let s := F64.add acc x in s :: partial_sums s r
+  end.
+
+Fixpoint set_last (l : list f64) (v : f64) : list f64 :=
+  match l with
+  | [] => []
+  | [_] => [v]
+  | x :: r => x :: set_last r v
+  end.
+
+Definition discrete_cp (ws : list Z) : list f64 :=
+  match ws with
+  | [] | [_] => []
+  | _ =>
+      let pr := map F64.of_Z ws in
+      let sum := fold_left F64.add pr F64.zero in
+      match map (fun x => F64.div x sum) pr with
+      | [] => []
+      | p0 :: r => set_last (p0 :: partial_sums p0 r) (F64.of_Z 1)
+      end
+  end.
+
+(* std::lower_bound: binary search with operator<, exactly as libstdc++ does it (bits/stl_algobase.h):
+     while (len > 0) { half = len >> 1; middle = first + half;
+                       if (middle[0] < val) { first = middle + 1; len = len - half - 1; } else len = half; } *)
+Fixpoint lower_bound_loop (fuel : nat) (cp : list f64) (val : f64) (first len : nat) : nat :=
+  match fuel with
+  | O => first
+  | S f =>
+      match len with
+      | O => first
+      | _ =>
+          let half := Nat.div2 len in
+          let middle := (first + half)%nat in
+          if F64.ltb (nth middle cp F64.nan) val
+          then lower_bound_loop f cp val (S middle) (len - half - 1)%nat
+          else lower_bound_loop f cp val first half
+      end
+  end.
+
+Definition lower_bound (cp : list f64) (val : f64) : nat :=
+  lower_bound_loop (S (length cp)) cp val 0%nat (length cp).
+
+Definition discrete (ws : list Z) (st : state) : Z * state :=
+  match discrete_cp ws with
+  | [] => (0, st)
+  | cp => let '(u, st') := canonical st in (Z.of_nat (lower_bound cp u), st')
+  end.
+
 (* ------------------------------------------------------------ a sequence of requests answered from a state
    (what the correspondence replays: the kinds and bounds of the H1 log, values predicted) *)
 Inductive request :=
 | QInt (lo hi : Z)
 | QReal (lo hi : f64)
 | QBool (p : f64)
+| QDisc (ws : list Z)   (* std::discrete_distribution over the given weights *)
 | QSkip.          (* a draw that consumes exactly one engine output and whose value is not predicted
                      (std::discrete_distribution in population pickup: its weights are not in the log) *)
 
-Inductive answer := AInt (v : Z) | AReal (v : f64) | ABool (b : bool) | ASkipped | AFail.
+Inductive answer := AInt (v : Z) | AReal (v : f64) | ABool (b : bool) | ADisc (v : Z) | ASkipped | AFail.
 
 Fixpoint answers (fuel : nat) (qs : list request) (st : state) : list answer :=
   match qs with
@@ -113,5 +171,6 @@ Fixpoint answers (fuel : nat) (qs : list request) (st : state) : list answer :=
       end
   | QReal lo hi :: r => let '(v, st') := between_real lo hi st in AReal v :: answers fuel r st'
   | QBool p :: r => let '(b, st') := boolean p st in ABool b :: answers fuel r st'
+  | QDisc ws :: r => let '(v, st') := discrete ws st in ADisc v :: answers fuel r st'
   | QSkip :: r => ASkipped :: answers fuel r (snd (next st))
   end.
